@@ -24,7 +24,7 @@ from vf.trace import make_tracing_solver, run_solve
 
 ID = "C10"
 LEVEL = "exploration"
-BUDGET = {"quick": 8, "thorough": 250}
+BUDGET = {"quick": 8, "thorough": 150}
 STEP_COUNT = 20
 CASE_TIMEOUT = 300
 RULE = (
